@@ -66,17 +66,27 @@ class Built:
         probe.__name__ = 'probe_' + ''.join(c if c.isalnum() else '_' for c in pid)
         return probe
 
-    def _expose(self, f, mark, alias, ns):
+    def _expose(self, f, mark, alias, ns, form='kw'):
+        """Mark through `cherrypy.expose` in one of its documented forms:
+        bare `@expose`, `@expose()`, `@expose(alias=…)` (str or list), `@expose('alias')` / `@expose([...])`,
+        `f = expose(f, alias)`."""
         cherrypy = cp()
         if alias:
             # `expose(alias=…)` writes the aliases into the *calling frame's* locals: run it with `ns`
             # as that frame's locals, exactly as a class body would.
-            exec('f = expose(alias=alias)(f0)', {'expose': cherrypy.expose, 'alias': list(alias), 'f0': f}, ns)
+            code = {'kw': 'f = expose(alias=alias)(f0)', 'pos': 'f = expose(alias)(f0)',
+                    'func': 'f = expose(f0, alias)'}[form if form in ('kw', 'pos', 'func') else 'kw']
+            a = alias if isinstance(alias, str) else list(alias)
+            exec(code, {'expose': cherrypy.expose, 'alias': a, 'f0': f}, ns)
             ns.pop('f', None)
             if mark is not True and mark is not None:
                 f.exposed = mark
         elif mark is True:
-            cherrypy.expose(f)
+            if form == 'call':
+                exec('f = expose()(f0)', {'expose': cherrypy.expose, 'f0': f}, ns)
+                ns.pop('f', None)
+            else:
+                cherrypy.expose(f)
         elif mark is not None:
             f.exposed = mark
         return f
@@ -89,9 +99,10 @@ class Built:
             ns = {'_gen_node': True, '_gen_id': i}
             for name, m in nd.get('meth', []):
                 f = self._probe('%d.%s' % (i, name))
-                self._expose(f, m.get('exp'), m.get('alias'), ns)
+                self._expose(f, m.get('exp'), m.get('alias'), ns, m.get('xform', 'kw'))
                 if m.get('alias') or m.get('exp') is True:
-                    self.exposed_by_decorator.append((i, name, list(m.get('alias') or []), f,
+                    al = m.get('alias') or []
+                    self.exposed_by_decorator.append((i, name, [al] if isinstance(al, str) else list(al), f,
                                                       m.get('exp') is True or m.get('exp') is None))
                 want = None
                 if m.get('conf') is not None:
